@@ -233,6 +233,33 @@ def dedicated(ctx, rng):
                 ctx.violation(f"precision-lost:{name}", f"{name} on {dt} data differs from the {HI[dt]} twin", w)
         if ok and dt != "float64":
             ctx.nontrivial(("dedicated", name, dt, struct_sig(x)))
+    # ---- parameters handed to an array are stored with the element type they come with
+    if x.blocks and rng.random() < 0.5:
+        for tgt in rng.sample(["float32", "float64", "complex64", "complex128"], 2):
+            y = x.copy()
+            op_ = ctx.call(lambda: y.get_params())
+            if not op_.ok or set(op_.value) != set(x.blocks):
+                ctx.violation("get_params", f"get_params() does not return the stored blocks: {op_.exc!r}", wit)
+                break
+            some = rng.sample(sorted(op_.value, key=repr), rng.randint(1, len(op_.value)))
+            with np.errstate(all="ignore"), __import__("warnings").catch_warnings():
+                __import__("warnings").simplefilter("ignore")
+                params = {s_: np.asarray(op_.value[s_]).astype(tgt) for s_ in some}
+            os_ = ctx.call(lambda: y.set_params(params))
+            ctx.evaluated()
+            ctx.count("dtype", dt)
+            ctx.count("op", "dedicated:set_params")
+            w = dict(wit, op="set_params", given_dtype=tgt)
+            if not os_.ok:
+                ctx.violation(f"set_params-raises-{os_.excname}", repr(os_.exc), w)
+                break
+            bad = [s_ for s_ in some if np.asarray(y.blocks[s_]).dtype != np.dtype(tgt) or not np.array_equal(np.asarray(y.blocks[s_]), params[s_])]
+            kept = [s_ for s_ in x.blocks if s_ not in some and (np.asarray(y.blocks[s_]).dtype != np.asarray(x.blocks[s_]).dtype)]
+            if bad or kept:
+                ctx.violation("dtype-changed:set_params", f"set_params with {tgt} blocks on a {dt} array: stored element types {sorted({str(np.asarray(y.blocks[s_]).dtype) for s_ in some})}; untouched blocks changed type: {bool(kept)}", w)
+                break
+            if tgt != dt:
+                ctx.nontrivial(("set_params", dt, tgt, struct_sig(x)))
 
 
 def mixed_blocks(ctx, rng):
